@@ -55,7 +55,7 @@ CLAIMED = {
  "C08": dict(
    text=("Lean theorems over all instants and all chains: the formats' time grids are nested (frames of milliseconds = frames, ...), each hop is idempotent, a "
          "chain of any length brings an instant to the coarsest grid on the chain and nothing more (chain_coarsest, induction over the chain), and a second "
-         "pass is the identity (second_pass_identity), as is any number of further passes (chain_passes), a chain never moves an instant forward nor back by a frame or more - by less than a millisecond without MicroDVD - (chain_loss_bounded), keeps instants in order (chain_monotone), depends only on which formats occur on it (chain_same_formats) and composes (chain_append) - so 'no drift' follows once each hop truncates to its grid, which C01/C02 establish per format. "
+         "pass is the identity (second_pass_identity), as is any number of further passes (chain_passes), a chain never moves an instant forward nor back by a frame or more - by less than a millisecond without MicroDVD - (chain_loss_bounded), keeps instants in order (chain_monotone; a sorted timeline stays sorted: chain_keeps_timeline_sorted), never brings together two instants a frame apart - a millisecond apart without MicroDVD - (chain_keeps_apart), depends only on which formats occur on it (chain_same_formats) and composes (chain_append) - so 'no drift' follows once each hop truncates to its grid, which C01/C02 establish per format. "
          "For SRT the hop itself is proved end to end on the writer and reader models (srt_hop: reading what the writer wrote returns one caption per written cue, "
          "in order, with the millisecond-truncated instants and the writer's text lines, for EVERY list of cues with visible text; srt_hop_instant ties it to coarsen), "
          "for WebVTT (vtt_hop: captions made of text lines of any characters come back with the same lines and the millisecond-truncated instants) "
